@@ -1,7 +1,8 @@
 (* C04 — executable model of gomacro's untyped constant evaluation and typed-context conversion
-   (code as it is AFTER the fix: commits C04-1..C04-6):
+   (code as it is AFTER the fix: commits C04-1..C04-7, C04-9):
      fast/binary.go   Comp.BinaryExprUntyped, untypedClass, Comp.ShiftUntyped
      fast/unary.go    Comp.UnaryExprUntyped
+     fast/builtin.go  compileRealImagUntyped, compileComplexUntyped, checkComplexUntypedArg
      fast/convert.go  Comp.convert (untyped operand)
      base/untyped/lit.go  Lit.Convert, ConvertExplicitOnly, extractNumber, extractFloat,
                           ConvertLiteralCheckOverflow, BigInt, BigRat, BigFloat
@@ -266,7 +267,48 @@ Definition binary_untyped (op : binop) (x y : lit) : option lit :=
 Definition unary_untyped (op : unop) (x : lit) : option lit :=
   match unop_c op (lval x) with Some z => Some (mkLit (lkind x) z) | None => None end.
 
-Inductive expr := ELit (l : lit) | EUn (op : unop) (x : expr) | EBin (op : binop) (x y : expr).
+(* ------------------------------------------------------------------ gomacro: fast/builtin.go *)
+(* constant.Real, constant.Imag followed by constant.ToFloat: the component as a rational; None = panic (not a number).
+   go/constant keeps an integral component as an Int (real(3+2i), real(1), imag('a')): ToFloat makes it a Float. *)
+Definition real_c (v : cval) : option Q :=
+  match v with CInt z => Some (Qz z) | CRat q => Some q | CCplx a _ => Some a | _ => None end.
+Definition imag_c (v : cval) : option Q :=
+  match v with CInt _ | CRat _ => Some 0%Q | CCplx _ b => Some b | _ => None end.
+
+Inductive builtin1 := BReal | BImag.
+
+(* compileRealImagUntyped (after fix C04-7): numeric kinds only; the result is ALWAYS an untyped float *)
+Definition real_imag_untyped (f : builtin1) (x : lit) : option lit :=
+  match class_of x with
+  | ClNum =>
+      match (match f with BReal => real_c | BImag => imag_c end) (lval x) with
+      | Some q => Some (mkLit KFloat (CRat q))
+      | None => None
+      end
+  | _ => None
+  end.
+
+(* checkComplexUntypedArg: int, rune, float, or complex with a zero imaginary part *)
+Definition complex_arg_ok (l : lit) : bool :=
+  match lkind l with
+  | KInt | KRune | KFloat => true
+  | KComplex => match imag_c (lval l) with Some b => Qzero b | None => false end
+  | _ => false
+  end.
+
+Definition imag_one : cval := CCplx 0 1.   (* complexImagOne = 1i *)
+
+(* compileComplexUntyped: re + im * 1i with constant.BinaryOp; the result is an untyped complex *)
+Definition complex_untyped (x y : lit) : option lit :=
+  if complex_arg_ok x && complex_arg_ok y then
+    match binop_c AMul (lval y) imag_one with
+    | Some iy => match binop_c AAdd (lval x) iy with Some z => Some (mkLit KComplex z) | None => None end
+    | None => None
+    end
+  else None.
+
+Inductive expr := ELit (l : lit) | EUn (op : unop) (x : expr) | EBin (op : binop) (x y : expr)
+                | ECall1 (f : builtin1) (x : expr) | ECplx (x y : expr).
 
 Fixpoint eval (e : expr) : option lit :=
   match e with
@@ -275,6 +317,12 @@ Fixpoint eval (e : expr) : option lit :=
   | EBin op x y =>
       match eval x, eval y with
       | Some a, Some b => binary_untyped op a b
+      | _, _ => None
+      end
+  | ECall1 f x => match eval x with Some a => real_imag_untyped f a | None => None end
+  | ECplx x y =>
+      match eval x, eval y with
+      | Some a, Some b => complex_untyped a b
       | _, _ => None
       end
   end.
@@ -346,7 +394,7 @@ Definition check_overflow (ks k : ikind) (n : Z) : tres :=
   let v := wrap k n in
   if wrap ks v =? n then TVInt v else TErr.
 
-(* extractNumber + ConvertLiteralCheckOverflow (after fixes C04-1, C04-2) *)
+(* extractNumber + ConvertLiteralCheckOverflow (after fixes C04-1, C04-2, C04-9) *)
 Definition extract_number (src : cval) (t : tkind) : tres :=
   match src with
   | CInt _ | CRat _ | CCplx _ _ =>
@@ -363,7 +411,7 @@ Definition extract_number (src : cval) (t : tkind) : tres :=
         end
     | CatFloat f =>
         match src with
-        | CCplx _ _ => TErr       (* complex128 -> float: reflect panics *)
+        | CCplx _ _ => TErr       (* non-zero imaginary part (convert drops a zero one): "truncated", fix C04-9 *)
         | _ => match to_float src with
                | Some q => match extract_float f q with Some b => TVFloat b | None => TErr end
                | None => TErr
